@@ -71,7 +71,7 @@ Record g := {
   encst : E;
   log : list (nat * nat * pkt);                 (* the gateway's byte log, NEWEST FIRST: (sender, writer, packet) *)
   pend : nat;                                   (* number of asyncio.create_task(self.connect()) issued by fault handlers so far *)
-  trace : list cst;                             (* arguments of the status callback, newest first *)
+  trace : list cst;                             (* arguments of the status callback (if one is registered), newest first *)
   has_cb : bool
 }.
 
@@ -95,7 +95,7 @@ Definition spawn_connect (x : g) : g :=
 Definition set_state (x : g) (s : cst) : g :=
   if cst_eqb (st x) s then x else
   {| st := s; wr := wr x; next_w := next_w x; lockh := lockh x; pcs := pcs x; encst := encst x; log := log x;
-     pend := pend x; trace := s :: trace x; has_cb := has_cb x |}.
+     pend := pend x; trace := (if has_cb x then s :: trace x else trace x); has_cb := has_cb x |}.
 
 (* `except Exception:` branch of send (the lock has been released by `async with` on the way out) *)
 Definition fault (x : g) (c : call) (cb : cbo) : g * spc :=
